@@ -83,8 +83,8 @@ pub fn gen(rng: &mut ChaCha20Rng, n: usize, thorough: bool) -> Vec<Case> {
     out.push(mk("C10 blindsel f".into(), &["ep:Transaction::blind", "src:fixed-F12"], true));
     out.push(mk("C10 blindsel uf".into(), &["ep:Transaction::blind", "src:fixed-F12"], true));
     out.push(mk("C10 sbuilder n".into(), &["ep:TaprootBuilder::finalize-serde", "src:fixed-F16"], true));
-    out.push(mk(format!("C10 fees {} 3:{},3:1", prof, u64::MAX), &["ep:Transaction::fee_in", "src:finding-F17"], true));
-    out.push(mk(format!("C10 fees {} 3:{},4:7,3:{}", prof, 1u64 << 63, 1u64 << 63), &["ep:Transaction::fee_in", "src:finding-F17"], true));
+    out.push(mk(format!("C10 fees {} 3:{},3:1", prof, u64::MAX), &["ep:Transaction::fee_in", "src:fixed-F17"], true));
+    out.push(mk(format!("C10 fees {} 3:{},4:7,3:{}", prof, 1u64 << 63, 1u64 << 63), &["ep:Transaction::fee_in", "src:fixed-F17"], true));
 
     {   // F18: a valid commitment / generator, handed over as a shorter slice of the same buffer
         let c = rcommitment(rng).serialize(); let g = rgenerator(rng).serialize();
@@ -109,9 +109,9 @@ pub fn gen(rng: &mut ChaCha20Rng, n: usize, thorough: bool) -> Vec<Case> {
     for v in [0u64, 1, 7] { out.push(mk(format!("C10 x-blindzero {}", v), &["ep:explore-Transaction::blind", if v == 0 { "src:finding-F20" } else { "src:fixed" }], true)); }
     for n in [0usize, 1, 255, 256, 257] { out.push(mk(format!("C10 x-surj {}", n), &["ep:explore-Asset::blind", if n > 256 { "src:finding-F22" } else { "src:fixed" }], true)); }
     out.push(mk("C10 x-rp64".into(), &["ep:explore-TxOut::unblind", "src:finding-F23"], true));
-    for r in [0, 1] { out.push(mk(format!("C10 x-remove {}", r), &["ep:explore-Pset::remove_input", if r == 1 { "src:finding-F24" } else { "src:fixed" }], true)); }
-    for pat in ["empty", "null"] { out.push(mk(format!("C10 x-serde-taptree {}", pat), &["ep:explore-serde-TapTree", "src:finding-F25"], true)); }
-    out.push(mk("C10 x-cbor-params a16c6665647065677363726970749bffffffffffffffff".into(), &["ep:explore-serde-dynafed", "src:finding-F26"], true));
+    for r in [0, 1] { out.push(mk(format!("C10 x-remove {}", r), &["ep:explore-Pset::remove_input", if r == 1 { "src:fixed-F24" } else { "src:fixed" }], true)); }
+    for pat in ["empty", "null"] { out.push(mk(format!("C10 x-serde-taptree {}", pat), &["ep:explore-serde-TapTree", "src:fixed-F25"], true)); }
+    out.push(mk("C10 x-cbor-params a16c6665647065677363726970749bffffffffffffffff".into(), &["ep:explore-serde-dynafed", "src:fixed-F26"], true));
     out.push(mk("C10 x-cbor-params a16c66656470656773637269707483010203".into(), &["ep:explore-serde-dynafed", "src:fixed"], true));
     {   // F27: CBOR [2, h'<n bytes of a valid commitment>'] for n = 33 (fine) and shorter
         let c = rcommitment(rng).serialize();
@@ -224,7 +224,7 @@ pub fn gen(rng: &mut ChaCha20Rng, n: usize, thorough: bool) -> Vec<Case> {
     for _ in 0..n / 2 { let l = rng.gen_range(0..7); out.push(mk(format!("C10 rint {}", hexd(&rbytes(rng, l))), &["ep:read_scriptint", "src:random-bytes"], true)); }
 
     // read_uint with every size 0..=17 (F19 for sizes >= 9 when that many bytes are there)
-    out.push(mk(format!("C10 ruint {} 9 {}", prof, hex(&[1u8; 9])), &["ep:script::read_uint", "src:finding-F19"], true));
+    out.push(mk(format!("C10 ruint {} 9 {}", prof, hex(&[1u8; 9])), &["ep:script::read_uint", "src:fixed-F19"], true));
     for size in 0..=17usize { for extra in [0isize, -1, 3] { let l = (size as isize + extra).max(0) as usize; out.push(mk(format!("C10 ruint {} {} {}", prof, size, hexd(&rbytes(rng, l))), &["ep:script::read_uint", "src:sizes"], true)); } }
     // ------------------------------------------------------------------ addresses and blech32 strings
     let mut addrs: Vec<String> = Vec::new();
@@ -373,7 +373,7 @@ pub fn gen(rng: &mut ChaCha20Rng, n: usize, thorough: bool) -> Vec<Case> {
         let k = rng.gen_range(0..5);
         let items: Vec<String> = (0..k).map(|_| format!("{}:{}", rng.gen_range(1..4u8), pk!(rng, [0u64, 1, 1000, u64::MAX / 2, u64::MAX / 2 + 1, u64::MAX, rng.gen()]))).collect();
         let over = { let mut m = std::collections::HashMap::new(); for it in &items { let (a, v) = it.split_once(':').unwrap(); *m.entry(a.to_string()).or_insert(0u128) += v.parse::<u64>().unwrap() as u128; } m.values().any(|v| *v > u64::MAX as u128) };
-        out.push(mk(format!("C10 fees {} {}", prof, if items.is_empty() { "-".to_string() } else { items.join(",") }), &["ep:Transaction::fee_in", if over { "src:generated-F17-class" } else { "src:generated" }], true));
+        out.push(mk(format!("C10 fees {} {}", prof, if items.is_empty() { "-".to_string() } else { items.join(",") }), &["ep:Transaction::fee_in", if over { "src:generated-former-F17-class" } else { "src:generated" }], true));
     }
 
     // ------------------------------------------------------------------ exploration in support (not proof): PSET, blind, sighash, text parsers
